@@ -337,6 +337,8 @@ def run_async_malformed(task):
             scripts[72] = ('read_error',)
         elif case == 'lua-empty':
             scripts[72] = ('no_validate',)
+        elif case == 'lua-empty-after-healthy':
+            scripts[72] = ('no_validate',)
         elif case == 'ai-no-key':
             key = None if L == 0 else ()
         elif case == 'lua-pattern':
@@ -347,6 +349,10 @@ def run_async_malformed(task):
         bad_ai = mk_bwc(prog, mk_block(prog, I, dict(ai_attr, name=b'bad2'), (9, 3), (9, 20), (3, 5), (9, 30), (11, 1)))
         healthy = mk_bwc(prog, mk_block(prog, I, {'name': b'ok', 'keep-sorted': b''}, (1, 3), (1, 20), (3, 5), (1, 30), (3, 1)))
         blocks = [healthy, bad_lua, bad_ai] if pos == 0 else [bad_ai, bad_lua, healthy]
+        if case == 'lua-empty-after-healthy':
+            # a healthy scripted block earlier in the same file (a VM shared per file would keep its `validate`)
+            first = mk_bwc(prog, mk_block(prog, I, {'name': b'first', 'check-lua': b'A.lua'}, (1, 3), (1, 20), (3, 5), (1, 30), (3, 1)))
+            blocks = [first] + blocks
         src = tuple(b'#S\nab\n#E\n')
         other = mk_bwc(prog, mk_block(prog, I, {'name': b'o2', 'check-lua': b'A.lua'}, (1, 3), (1, 20), (3, 5), (1, 30), (3, 1)))
         ctx = mk_context(prog, I, [(b'f0.py', src, blocks), (b'f1.py', src, [other])])
@@ -475,7 +481,7 @@ def confirm(binary, v, idx):
             ai_attr, ai = 'check-ai="%s"' % val, True
         elif kind == 'lua-missing':
             lua_attr = 'check-lua="missing.lua"'
-        elif kind == 'lua-empty':
+        elif kind in ('lua-empty', 'lua-empty-after-healthy'):
             lua_attr = 'check-lua="empty.lua"'
         elif kind == 'ai-no-key':
             ai = True
@@ -487,6 +493,8 @@ def confirm(binary, v, idx):
         elif kind == 'ai-pattern':
             ai_attr, ai = ai_attr + ' check-ai-pattern="[a-"', True
         body = '# <block name="ok" keep-sorted>\na\nb\n# </block>\n# <block name="bad" %s>\nab\n# </block>\n' % lua_attr
+        if kind == 'lua-empty-after-healthy':
+            body = '# <block name="first" check-lua="ok.lua">\nab\n# </block>\n' + body
         if ai:
             body += '# <block name="bad2" %s>\nab\n# </block>\n' % ai_attr
         files['f0.py'] = body.encode('latin1')
@@ -543,7 +551,7 @@ def main(tier):
     names = ['KeepSortedValidator', 'KeepUniqueValidator', 'LineCountValidator']
     results += pmap(run_propagation, [list(p) for p in itertools.permutations(names)], chunksize=2)
     atasks = [(c, L, p) for c in ('lua-path', 'ai-condition') for L in range(0, 3 if tier == 'quick' else 4) for p in (0, 1)]
-    atasks += [(c, 0, p) for c in ('lua-missing', 'lua-empty', 'ai-no-key', 'lua-pattern', 'ai-pattern') for p in (0, 1)]
+    atasks += [(c, 0, p) for c in ('lua-missing', 'lua-empty', 'lua-empty-after-healthy', 'ai-no-key', 'lua-pattern', 'ai-pattern') for p in (0, 1)]
     atasks.append(('ai-no-key', 1, 0))
     results += pmap(run_async_malformed, atasks)
     # line-count expressions: the C09 harness family A (symbolic expression), malformed/overflow verdicts only
